@@ -17,4 +17,5 @@ define(globals(), "layout_prims", "tool", F, "verif_layout", "layout_prims.rs",
         "cfg(kani) constructor hooks for Type::Enum / Type::Opaque appended to core in the scratch copy", "RandomState::new stubbed"],
        {"C08": ["nested struct fields (TypeContext lookup) in the Kani comparison", "JS text generation"], "C15": ["unimplemented! for Option<ZST> (payload rejected by lower_type: zero-sized structs are not accepted as inputs)"]},
        kani_args=["-Z", "stubbing"],
-       extra_appends=[("core/src/hir/type_context.rs", "core_hooks.rs"), ("tool/src/lib.rs", "tool_common.rs")])
+       extra_appends=[("core/src/hir/type_context.rs", "core_hooks.rs"), ("tool/src/lib.rs", "tool_common.rs")],
+       quick_elsewhere={"C15": "C08"})
